@@ -241,6 +241,11 @@ func nrules(p *load.Program, f *fsm, s *oblig.Set) {
 			}
 		case sok && sterr:
 			key := "lexer.(*Lexer).Next / state error path"
+			if oc.end != "return true" {
+				s.Bad("N8", "lexer.(*Lexer).Next / a lexer error is delivered with the token stream", pos, "on a lexer error Next must report true with Err set: the transactional lexer only caches entries for which Next was true, and the parser reads error and span from the cached entry (a false here makes the parser index an empty cache when the very first token is bad); it ends with "+oc.end, oc.conds...)
+			} else {
+				s.OK("N8", "lexer.(*Lexer).Next / a lexer error is delivered with the token stream", pos, "returns true with Err set")
+			}
 			if from == "F" && to == "T" {
 				s.OK("N2", key, pos, "a lexer error leaves the span untouched")
 			} else {
